@@ -544,6 +544,8 @@ class MetaDispatchable(abc.ABCMeta):
 
             try:
                 obj.parse(packet)
+                # what is written back may be shorter than what was read (non-canonical integers or subpacket lengths)
+                obj.update_hlen()
 
             except Exception as ex:
                 raise PGPError(str(ex)) from ex
